@@ -1,14 +1,16 @@
-/* preamble for msg_ring_buffer.c : ghost state + specification predicates (C08) */
+/* preamble for msg_ring_buffer.c : specification predicates (C08) */
 #ifndef VG_MRB_PRE_H
 #define VG_MRB_PRE_H
 #include <stdint.h>
 #include <stddef.h>
 #include "jls/msg_ring_buffer.h"
 
+#ifndef VG_MRB_MAX
 #define VG_MRB_MAX   (1u << 30)     /* stated bound on the capacity; the product uses 2^26 */
+#endif
 #define VG_MRB_K     10u            /* usable capacity = buf_size - VG_MRB_K (largest size that fits an empty queue) */
 
-/* basic representation invariant (no record chain yet) */
+/* basic representation invariant */
 #define VG_MRB_WF0(s) ( (s)->buf_size >= 16u && (s)->buf_size <= VG_MRB_MAX      \
      && (s)->head < (s)->buf_size && (s)->tail < (s)->buf_size                    \
      && (s)->head + 4u <= (s)->buf_size && (s)->tail + 4u <= (s)->buf_size )
@@ -19,6 +21,29 @@ static inline _Bool vg_mrb_live(uint32_t head, uint32_t tail, uint32_t buf_size,
     if (tail <= head) return (tail <= o) && (o < head);
     return (o >= tail) || (o < head);
 }
-
+static inline uint32_t vg_rd32(const uint8_t * p) {
+    return ((uint32_t) p[0]) | (((uint32_t) p[1]) << 8) | (((uint32_t) p[2]) << 16) | (((uint32_t) p[3]) << 24);
+}
+/* effective tail: offset of the oldest record (tail itself, or 0 when tail points at a wrap marker) */
+static inline uint32_t vg_mrb_teff(const struct jls_mrb_s * s) {
+    return (vg_rd32(s->buf + s->tail) >= 0x80000000u) ? 0u : s->tail;
+}
+/* the oldest record is well formed: the instance of the record-chain invariant that peek/pop rely on.
+ * (every record was laid out by jls_mrb_alloc: size prefix, payload inside the live span, room for a marker behind) */
+static inline _Bool vg_mrb_first_ok(const struct jls_mrb_s * s) {
+    if (!VG_MRB_WF0(s)) return 0;
+    if (s->head == s->tail) return 1;
+    uint32_t t = s->tail;
+    if (vg_rd32(s->buf + t) >= 0x80000000u) {       /* wrap marker at tail: the live span wraps, the record sits at 0 */
+        if (!(s->head < s->tail)) return 0;
+        t = 0;
+        if (vg_rd32(s->buf) >= 0x80000000u) return 0;
+        return (uint64_t) 4 + vg_rd32(s->buf) <= s->head;   /* the record behind the wrap ends at or before head */
+    }
+    uint32_t z = vg_rd32(s->buf + t);
+    uint64_t e = (uint64_t) t + 4 + z;
+    if (t < s->head) return e <= s->head;           /* ends at or before head */
+    return e + 4 <= s->buf_size;                    /* record in front of the wrap: stays inside the buffer */
+}
 extern uint32_t vg_o;       /* skolem witness: an arbitrary byte offset of the buffer */
 #endif
